@@ -104,23 +104,15 @@ Definition sys_step (bt : list Z) (s : sys) (a : action) : sys :=
 Fixpoint sys_run (bt : list Z) (s : sys) (l : list action) : sys :=
   match l with [] => s | a :: r => sys_run bt (sys_step bt s a) r end.
 
-(* ---------------------------------------------------------------- what a XEP-0198 server does not do
-   (the hypotheses of the statements that relate the client to the server's own count) *)
-Definition awaited_reply (st : state) : Prop := sq st = [].   (* the request has been written completely *)
-
+(* ---------------------------------------------------------------- the one thing the statements ask of the server
+   When it answers <resumed h>, h is its own count for that session: not below what it has already reported as
+   handled, not above what the client has written, and the session carried fewer than 2^32 stanzas (the client
+   compares sm_h with h as plain numbers).  Everything else - any element, any h in <a/> or <failed/>, at any
+   time - is allowed. *)
 Definition honest (s : sys) (a : action) : Prop :=
-  let st := fst s in let g := snd s in
   match a with
-  | AIn (IFeatures _) => h_feat st = true /\ awaited_reply st
-  | AIn IBindResult => h_bind st = true /\ awaited_reply st
-  | AIn (ISm (SmEnabled ra id)) =>
-      h_sm st = true /\ sm_enabled st = true /\ awaited_reply st /\ (ra = true -> id <> None)
-  | AIn (ISm (SmResumed pv h)) =>
-      h_sm st = true /\ sm_enabled st = false /\ awaited_reply st /\ pv = previd st /\ pv <> None /\
-      exists hv, h = Some hv /\ zlen (g_cur_done g) <= hv <= zlen (g_recv g) /\ zlen (g_recv g) < W32
-  | AIn (ISm (SmFailed c h)) => h_sm st = true /\ awaited_reply st
-  | AIn (ISm SmOther) => False
-  | AIn (ISm _) => h_sm st = false                  (* <r/> and <a/> only on an established session *)
+  | AIn (ISm (SmResumed _ (Some h))) =>
+      zlen (g_cur_done (snd s)) <= h <= zlen (g_recv (snd s)) /\ zlen (g_recv (snd s)) < W32
   | _ => True
   end.
 
@@ -202,21 +194,9 @@ Definition inv_honest_b (s : sys) : bool :=       (* holds on histories with an 
   forallb (fun x => Nat.ltb 0 (count x (g_recv g ++ concat (g_old g)))) (g_done g).
 
 Definition honest_b (s : sys) (a : action) : bool :=
-  let st := fst s in let g := snd s in
-  let idle := match sq st with [] => true | _ => false end in
   match a with
-  | AIn (IFeatures _) => h_feat st && idle
-  | AIn IBindResult => h_bind st && idle
-  | AIn (ISm (SmEnabled ra id)) => h_sm st && sm_enabled st && idle && impb ra (negb (is_none id))
-  | AIn (ISm (SmResumed pv h)) =>
-      h_sm st && negb (sm_enabled st) && idle &&
-      match pv, previd st, h with
-      | Some p, Some q, Some hv => zlist_eqb p q && (zlen (g_cur_done g) <=? hv) && (hv <=? zlen (g_recv g)) && (zlen (g_recv g) <? W32)
-      | _, _, _ => false
-      end
-  | AIn (ISm (SmFailed c h)) => h_sm st && idle
-  | AIn (ISm SmOther) => false
-  | AIn (ISm _) => negb (h_sm st)
+  | AIn (ISm (SmResumed _ (Some h))) =>
+      (zlen (g_cur_done (snd s)) <=? h) && (h <=? zlen (g_recv (snd s))) && (zlen (g_recv (snd s)) <? W32)
   | _ => true
   end.
 
